@@ -16,6 +16,7 @@ fn main() {
     install_panic_hook();
     let path = PathBuf::from(&args[3]);
     let code = match (args[1].as_str(), args[2].as_str()) {
+      ("C11", _) => vprop::c11::child(&path),
       ("C12", _) => vprop::c12::child(&path),
       _ => 2,
     };
@@ -86,6 +87,7 @@ fn main() {
     "C08" => vprop::c08::run(&cfg),
     "C09" => vprop::c09::run(&cfg),
     "C10" => vprop::c10::run(&cfg),
+    "C11" => vprop::c11::run(&cfg),
     "C12" => vprop::c12::run(&cfg),
     "C13" => vprop::c13::run(&cfg),
     "C14" => vprop::c14::run(&cfg),
